@@ -197,7 +197,18 @@ def check(case):
     except LinearSolverError as e:
         if singular:
             return ok(labels + ["raised_LinearSolverError"], n >= 3)
-        return violation(f"regular-system-fails|{sig0}|n{'>20' if n > 20 else '<=20'}", f"{solver_name} raised LinearSolverError({e}) on a nonsingular system, n={n}, cond<=1e3, trans={case['trans']}", labels)
+        extra = ""
+        if solver_name == "GMRES" and n > 20:
+            # The known finding F9 is precisely this: restarted GMRES(20) with the documented budget of n restart cycles
+            # (scipy defaults: restart=20, rtol=1e-5; atol=1e-8 as in GMRESSolver) does not converge on this very system.
+            # If that reference run does converge, the failure has another cause and is reported separately.
+            import scipy.sparse.linalg as spla
+
+            Mt = M.T if case["trans"] else M
+            _, ref_info = spla.gmres(Mt, b.copy(), restart=20, maxiter=n, x0=(x0.copy() if x0 is not None else None), atol=1e-8)
+            if ref_info == 0:
+                extra = "|reference-gmres20-converges"
+        return violation(f"regular-system-fails|{sig0}|n{'>20' if n > 20 else '<=20'}{extra}", f"{solver_name} raised LinearSolverError({e}) on a nonsingular system, n={n}, cond<=1e3, trans={case['trans']}" + (" although restarted GMRES(20) with n restart cycles converges on it" if extra else ""), labels)
     except Exception as e:
         return violation(f"wrong-exception-{type(e).__name__}|{sig0}", f"{solver_name}: {type(e).__name__}: {e}", labels)
     x = np.asarray(x, dtype=float)
